@@ -12,7 +12,9 @@ R3  MU_WAITING: cleared only by the spinlock holder and only when the queue is k
     (by induction the queue is non-empty only while MU_WAITING is set).
 R4  wake completeness: in every function, an element moved to a local wake list reaches store(waiting, 0) and semaphore V in a loop that unlinks every element.
 R5  sleeper protocol: every nsync_mu_semaphore_p* call is inside a loop whose continuation condition re-reads the wake flag / ready times.
-R6  no blocking call while a spinlock bit is held."""
+R6  no blocking call while a spinlock bit is held.
+R7  the thread that raised MU_LONG_WAIT clears it when it acquires, for every pre-state: otherwise a free mutex stays un-acquirable for threads that
+    have not waited, which queue themselves with nobody left to wake them (= C14.R4)."""
 from .. import util, mumodel, ir as IR
 from ..cfg import cfg_of
 from ..report import Violation, AnalysisBroken
@@ -146,6 +148,9 @@ def run(ctx, rep):
     from .. import wakeshape
     wakeshape.check_wake_loops(mod, rep, 'C02.R4')
     wakeshape.check_sleeper_loops(mod, rep, 'C02.R5', SEM_P)
+    # R7: a hint bit that makes a free mutex un-acquirable for fresh threads must not outlive the thread that raised it (shared with C14.R4)
+    from .C14 import check_long_wait_owner
+    check_long_wait_owner(eng, K, rep, 'C02.R7')
     rep.floor('C02.R1', 8)
     rep.floor('C02.R2', 10)
     rep.floor('C02.R3', 6)
